@@ -45,6 +45,17 @@ def gen_sched_L(rng):
     sched = [rng.randrange(0, nth) for _ in range(rng.randrange(0, steps + 2))]
     return Case('sched', {'k': 'L', 'inner': inner, 'progs': progs, 'sched': sched}, {'nontrivial', 'cached', 'lock_probe'})
 
+def gen_sched_H(rng):
+    """threads hash clones of one CachedSource whose tree calls back into a user-defined child: the
+    callback is the only schedule point inside CachedSource::hash"""
+    g = gen_tree.Gen(rng, gen_tree.Cfg(ascii=True, sms=0.2, cached=0.0, replace=0.2, warm=0.0))
+    inner = g.node(rng.randrange(0, 2))
+    nth = rng.choice([2, 2, 3])
+    progs = [['h'] * rng.randrange(1, 3) for _ in range(nth)]
+    steps = sum(2 * len(p) for p in progs)
+    sched = [rng.randrange(0, nth) for _ in range(rng.randrange(0, steps + 2))]
+    return Case('sched', {'k': 'H', 'inner': inner, 'progs': progs, 'sched': sched}, {'nontrivial', 'cached', 'hash_probe'})
+
 def ser_progs(progs):
     return ' '.join([str(len(progs))] + ['%d %s' % (len(p), ' '.join(p)) if p else '0' for p in progs])
 
